@@ -16,7 +16,7 @@ WALL_CAP = {'quick': 200, 'thorough': 3300}
 
 IN_TYPES = ['Packet', 'AbstractKeepAlive', 'cb.KeepAlive', 'cb.Chat',
             'cb.Position', 'cb.TimeUpdate', 'cb.login.PluginRequest',
-            'cb.play.Disconnect', 'sb.Chat']
+            'cb.play.Disconnect', 'sb.Chat', 'cb.login.SetCompression']
 OUT_TYPES = ['Packet', 'AbstractKeepAlive', 'sb.KeepAlive', 'sb.Chat',
              'sb.TeleportConfirm', 'sb.login.PluginResponse', 'sb.Handshake',
              'cb.Chat']
@@ -28,6 +28,7 @@ MATCH_IN = {
     'unknown': {'Packet'},
     'plugin-req': {'Packet', 'cb.login.PluginRequest'},
     'login-success': {'Packet'},
+    'set-compression': {'Packet', 'cb.login.SetCompression'},
     'disconnect': {'Packet', 'cb.play.Disconnect'},
 }
 MATCH_OUT = {
@@ -40,7 +41,8 @@ MATCH_OUT = {
     'plugin-resp': {'Packet', 'sb.login.PluginResponse'},
     'sentinel': {'Packet'},
 }
-IGNORABLE_IN = ['ka', 'chat', 'pos', 'time', 'unknown', 'plugin-req']
+IGNORABLE_IN = ['ka', 'chat', 'pos', 'time', 'unknown', 'plugin-req',
+                'set-compression']
 IGNORABLE_OUT = ['ka', 'chat', 'tp', 'plugin-resp']
 UUID0 = '00' * 16
 
@@ -66,6 +68,9 @@ def scenario_for(seed, index, tier):
     if ids['cb.login.plugin_request'] is not None:
         for m in range(rng.choice([0, 0, 1, 3])):
             login.append(['plugin', 10 + m, 'l:%d' % m, '0a0b'])
+    if rng.random() < 0.3:
+        login.insert(rng.randint(0, len(login)),
+                     ['compress', rng.choice([0, 64, 100000])])
     login.append(['success'])
     hist = []
     for j in range(rng.randint(1, 14)):
@@ -100,6 +105,12 @@ def scenario_for(seed, index, tier):
 def finish(sc):
     """(Re)build the server script from the scenario's own fields."""
     ref = reference(sc)
+    # an early listener that ignores the set-compression packet suppresses
+    # the built-in reaction: the client keeps the old framing, so must the
+    # server
+    sc['login'] = [[('compress' if ref['compression_reacted'] else
+                     'compress_noswitch') if s_[0].startswith('compress')
+                    else s_[0]] + list(s_[1:]) for s_ in sc['login']]
     play = list(sc['history'])
     play.append(['expect', ref['expected_play_frames']])
     play.append(['disconnect', '{"text":"end"}'])
@@ -153,6 +164,8 @@ def reference(sc):
     for s in sc['login']:
         if s[0] == 'plugin':
             incoming.append((('plugin-req', s[1]), 'plugin-req'))
+        elif s[0].startswith('compress'):
+            incoming.append((('set-compression', s[1]), 'set-compression'))
         elif s[0] == 'success':
             incoming.append((('login-success',), 'login-success'))
     for it in sc['history']:
@@ -169,10 +182,13 @@ def reference(sc):
             incoming.append((('unknown', it[1]), 'unknown'))
     incoming.append((('disconnect',), 'disconnect'))
     exp_in = []
+    compression_reacted = True
     outgoing = [(('hs',), 'hs'), (('login-start',), 'login-start')]
     for key, kind in incoming:
         calls, reacted = dispatch_in(L, kind)
         exp_in += [(lid, key) for lid in calls]
+        if kind == 'set-compression':
+            compression_reacted = reacted
         if reacted:
             if kind == 'ka':
                 outgoing.append((('ka', key[1]), 'ka'))
@@ -202,7 +218,8 @@ def reference(sc):
                   and s[1] not in answered]
     return {'incoming': incoming, 'exp_in': exp_in, 'exp_out': exp_out,
             'expected_play_frames': play_frames,
-            'unanswered_plugins': unanswered}
+            'unanswered_plugins': unanswered,
+            'compression_reacted': compression_reacted}
 
 
 def execute(scenario, tape):
@@ -222,6 +239,7 @@ def execute(scenario, tape):
              'cb.Position': cb.play.PlayerPositionAndLookPacket,
              'cb.TimeUpdate': cb.play.TimeUpdatePacket,
              'cb.login.PluginRequest': cb.login.PluginRequestPacket,
+             'cb.login.SetCompression': cb.login.SetCompressionPacket,
              'cb.play.Disconnect': cb.play.DisconnectPacket,
              'sb.KeepAlive': sb.play.KeepAlivePacket,
              'sb.Chat': sb.play.ChatPacket,
@@ -249,6 +267,8 @@ def execute(scenario, tape):
                 return ('time', p.world_age), 'time'
             if n == 'login plugin request':
                 return ('plugin-req', p.message_id), 'plugin-req'
+            if n == 'set compression':
+                return ('set-compression', p.threshold), 'set-compression'
             if n == 'login success':
                 return ('login-success',), 'login-success'
             if n == 'disconnect':
@@ -331,6 +351,8 @@ def check(scenario, w, st, res, ids):
     res.summary = {'proto': scenario['proto'],
                    'listeners': scenario['listeners'],
                    'login': [s[0] for s in scenario['login']],
+                   'set_compression_ignored':
+                   not ref['compression_reacted'],
                    'history': [it[0] for it in scenario['history']],
                    'writes': scenario['writes'], 'end': sim.end_state}
     res.nontrivial = len(scenario['listeners']) >= 2
@@ -495,6 +517,8 @@ def check(scenario, w, st, res, ids):
         res.probes['early-incoming-ignore-configured'] = 1
     if any(not wr for (_e, wr, _o) in ref['exp_out'].values()):
         res.probes['outgoing-write-suppressed'] = 1
+    if not ref['compression_reacted']:
+        res.probes['set-compression-reaction-suppressed'] = 1
 
 
 def shrink_scenario(sc):
